@@ -48,7 +48,7 @@ package revocation
 //@   ensures[C03] ocsp_only_if_enabled: called(OCSPRevocationChecker.IsRevoked#any) ==> ocspEnabled(old(c.ModeParsed))
 //@   ensures[C03] crl_only_if_enabled: called(CRLRevocationChecker.IsRevoked#any) ==> crlEnabled(old(c.ModeParsed))
 //@   ensures[C02,C03] ocsp_consulted: len(verifiedChains) > 0 && ocspEnabled(old(c.ModeParsed)) ==> called(OCSPRevocationChecker.IsRevoked#1)
-//@   ensures[C01,C03] crl_consulted: len(verifiedChains) > 0 && crlEnabled(old(c.ModeParsed)) && !(called(OCSPRevocationChecker.IsRevoked#1) && (res(OCSPRevocationChecker.IsRevoked#1, 1) != nil || res(OCSPRevocationChecker.IsRevoked#1, 0).Revoked)) ==> called(CRLRevocationChecker.IsRevoked#1)
+//@   ensures[C01,C03,C10] crl_consulted: len(verifiedChains) > 0 && crlEnabled(old(c.ModeParsed)) && !(called(OCSPRevocationChecker.IsRevoked#1) && (res(OCSPRevocationChecker.IsRevoked#1, 1) != nil || res(OCSPRevocationChecker.IsRevoked#1, 0).Revoked)) ==> called(CRLRevocationChecker.IsRevoked#1)
 //@   ensures[C03] disabled_touches_nothing: old(c.ModeParsed) == config.RevocationCheckModeDisabled ==> ret == nil && !called(OCSPRevocationChecker.IsRevoked#1) && !called(CRLRevocationChecker.IsRevoked#1)
 //@   ensures[C02,C03] ocsp_reject: called(OCSPRevocationChecker.IsRevoked#1) && (res(OCSPRevocationChecker.IsRevoked#1, 1) != nil || res(OCSPRevocationChecker.IsRevoked#1, 0).Revoked) ==> ret != nil
 //@   ensures[C01,C03] crl_reject: called(CRLRevocationChecker.IsRevoked#1) && (res(CRLRevocationChecker.IsRevoked#1, 1) != nil || res(CRLRevocationChecker.IsRevoked#1, 0).Revoked) ==> ret != nil
